@@ -55,6 +55,17 @@ def pids_matching(text):
 
 def children_of(pid):
     """direct children (pids) of a process, from /proc"""
+    if not os.path.isdir("/proc/%d" % pid):
+        return []
+    try:
+        # (the kernel's own list where it is compiled in: no scan of the whole process table)
+        kids = set()
+        for t in os.listdir("/proc/%d/task" % pid):
+            with open("/proc/%d/task/%s/children" % (pid, t)) as f:
+                kids.update(int(x) for x in f.read().split())
+        return sorted(kids)
+    except (OSError, ValueError):
+        pass
     out = []
     for d in os.listdir("/proc"):
         if not d.isdigit():
